@@ -9,9 +9,11 @@ V: KeyLifecycleTrace (TLC): the span programme realises the policy, every share 
    share matches its public share, exactly the qualified sets reconstruct log(pk), reloaded material is identical."""
 import json
 import lifecycle_common as lc
+import prod_common
 
 
 def run(chk):
+    prod_common.background(prod_common.run_keygen, chk)    # production groups x compilers (family ProdProto)
     if chk.quick:
         jobs = [("q251", ["-q", "251", "-n", "150", "-parties", "4", "-focus", "dkg"]),
                 ("q45971", ["-q", "45971", "-n", "100", "-parties", "5", "-focus", "dkg"]),
@@ -32,5 +34,7 @@ def run(chk):
 
 def replay(chk, path):
     case = json.load(open(path))["case"]
+    if case.get("a") in ("sign", "keygen", "ot", "vole"):
+        return 1 if prod_common.replay(case, tier=chk.tier) else 0
     print(json.dumps(case.get("failing_line", case))[:3000])
     return 0
